@@ -3,4 +3,4 @@ From PV Require Import Lib.ExtractBase Model.Waiter Model.WaiterPool.
 Extraction Language OCaml.
 Extraction "extracted/C04_model.ml" xb_types wait is_slow_down decide run_inst return_lower wcurrent worig wfixed
   wstate_init spec_token_b spec_decision_b max_overdue profile_offsets configured_discard
-  run_pool instance_discard schedules_built.
+  run_pool instance_discard schedules_built never_ahead_b.
